@@ -36,6 +36,33 @@ func (m *Machine) unop(instr *ssa.UnOp, x value) value {
 }
 
 func (m *Machine) binop(op token.Token, t types.Type, x, y value) value {
+	_, xs := x.(symStr)
+	_, ys := y.(symStr)
+	if xs || ys {
+		switch op {
+		case token.EQL, token.NEQ:
+			var r *Term
+			if xs {
+				r = m.symStrEq(x.(symStr), y)
+			} else {
+				r = m.symStrEq(y.(symStr), x)
+			}
+			if op == token.NEQ {
+				r = Not(r)
+			}
+			return r
+		case token.LSS:
+			return m.symStrLess(x, y)
+		case token.GTR:
+			return m.symStrLess(y, x)
+		case token.LEQ:
+			return Not(m.symStrLess(y, x))
+		case token.GEQ:
+			return Not(m.symStrLess(x, y))
+		case token.ADD:
+			return strOf(x) + strOf(y)
+		}
+	}
 	switch xv := x.(type) {
 	case *Term:
 		yv := y.(*Term)
@@ -177,11 +204,19 @@ func (m *Machine) equals(t types.Type, x, y value) *Term {
 	case *Term:
 		return Cmp("=", x, y.(*Term))
 	case string:
+		if ys, ok := y.(symStr); ok {
+			return m.symStrEq(ys, x)
+		}
 		return Bool(x == y.(string))
+	case symStr:
+		return m.symStrEq(x, y)
 	case float64:
 		return Bool(x == y.(float64))
 	case *value:
 		return Bool(x == y.(*value))
+	case *opaqueErr:
+		yo, _ := y.(*opaqueErr)
+		return Bool(x == yo)
 	case *mapV:
 		return Bool(x == y.(*mapV))
 	case *chanV:
@@ -507,11 +542,17 @@ func (m *Machine) callBuiltin(caller *frame, fn *ssa.Builtin, args []value) valu
 			if len(dst) < n {
 				n = len(dst)
 			}
-			tmp := make([]value, n)
-			for i := 0; i < n; i++ {
-				tmp[i] = copyVal(s[i])
+			if n > 0 {
+				if _, scalar := s[0].(*Term); scalar {
+					copy(dst, s[:n]) // memmove semantics, scalars are immutable
+				} else {
+					tmp := make([]value, n)
+					for i := 0; i < n; i++ {
+						tmp[i] = copyVal(s[i])
+					}
+					copy(dst, tmp)
+				}
 			}
-			copy(dst, tmp)
 		}
 		return BV(64, uint64(n))
 	case "close":
@@ -609,4 +650,14 @@ func (m *Machine) doRecover(caller *frame) value {
 		}
 	}
 	return iface{}
+}
+
+func strOf(v value) string {
+	switch v := v.(type) {
+	case string:
+		return v
+	case symStr:
+		return "<" + v.format + ">"
+	}
+	return fmt.Sprint(v)
 }
